@@ -60,6 +60,23 @@ def h_chain(L: int, s0: int, s1: int, s2: int, nsec: int, k0: int, a0: int, k1: 
     return hist.run(fs, nsec * L, lambda p: sl[p // L] * L + p % L, ops, k)
 
 
+def h_chain5(L: int, s0: int, s1: int, s2: int, s3: int, s4: int, a0: int, a1: int, k: int) -> int:
+    """
+    pre: L == 8192 or L == 9216
+    pre: 0 <= s0 < 40 and 0 <= s1 < 40 and 0 <= s2 < 40 and 0 <= s3 < 40 and 0 <= s4 < 40
+    pre: s0 != s1 and s0 != s2 and s0 != s3 and s0 != s4 and s1 != s2 and s1 != s3 and s1 != s4 and s2 != s3 and s2 != s4 and s3 != s4
+    pre: 0 <= a0 <= 50000 and 0 <= a1 <= 50000
+    post: _ == 1
+    """
+    CNT[0] += 1
+    # one long read over a 5-sector chain in ANY order: reads that cover three or more whole sectors between their first and last one
+    L = 8192 if L == 8192 else 9216
+    f = mkfile(40 * L)
+    sl = [s0, s1, s2, s3, s4]
+    fs = FileStream(f, L, sl)
+    return hist.run(fs, 5 * L, lambda p: sl[p // L] * L + p % L, [(0, a0), (3, a1)], k)
+
+
 # ------------------------------------------------------------------ C08.mdf
 def h_mdf(raw: int, k0: int, a0: int, k1: int, a1: int, k2: int, a2: int, nops: int, k: int) -> int:
     """
@@ -112,6 +129,8 @@ def h_reversed(size_s: int, w: int, off: int, k0: int, a0: int, k1: int, a1: int
         try:
             newpos = hist.step(r, size, addr_of, pos, kind, a, k)
         except (BadAlign, BadReadSize):
+            if r.tell() != pos:
+                return 0          # a rejected operation must not have moved the cursor (a failed seek / read on a file is a no-op)
             if kind == 3 and not aligned:
                 return 1          # rejected with the documented error; history ends
             if kind <= 2:
@@ -233,6 +252,9 @@ def obligations(tier, seed):
             obs.append(_ob(f"C08.offset/h4/ops=03{k2}", "h_offset", ["nops == 4", "k0 == 0", "k1 == 3", f"k2 == {k2}"], T,
                            "window size/offset, file size, kind of op 4, all arguments, byte index",
                            "histories seek,read,<k2>,<any>; |arg| <= 1e5; file <= 1e5 bytes"))
+    for L in ((8192,) if q else (8192, 9216)):
+        obs.append(_ob(f"C08.chain5/L={L}", "h_chain5", [f"L == {L}"], T, "five sector numbers (distinct, any order), seek position, read size, byte index",
+                       "5-sector chains; one seek + one read of up to 50000 bytes"))
     for L in (8192, 9216):
         for nsec in (1, 2, 3):
             if q and (nsec, L) not in ((3, 8192), (2, 9216)):
